@@ -44,6 +44,7 @@ func c04Cases(seed int64, tier string) []core.Case {
 	}
 	cs = append(cs, core.MkCase("dirgrow-0", "dirgrow", seed, ext4Case{Cfg: Ext4Cfg{Size: 16 << 20}, Mode: "dirgrow", Steps: 60}))
 	cs = append(cs, core.MkCase("appendspan-0", "appendspan", seed, ext4Case{Cfg: Ext4Cfg{Size: 32 << 20, SPB: 2, BPG: 4096}, Mode: "appendspan", Steps: 330}))
+	cs = append(cs, core.MkCase("inodeedge-0", "inodeedge", seed, ext4Case{Cfg: Ext4Cfg{Size: 16 << 20}, Mode: "inodeedge"}))
 	nf := 4
 	if tier == "thorough" {
 		nf = 40
